@@ -1708,6 +1708,8 @@ def random_where(rng, T):
       W = {'by': 'tag', 'keep': rng.sample(tags, rng.randint(1, max(1, len(tags) - 1)))}
     else:
       kinds = sorted({kind_of(p) for p in phs})
+      if not kinds:
+        continue
       W = {'by': 'kind', 'keep': rng.sample(kinds, rng.randint(1, max(1, len(kinds) - 1)))}
     if to_space(T, W)['elems']:
       return W
